@@ -22,6 +22,17 @@ Fixpoint cold_trace (h : list hop) (obs : list (list Z)) : list (list bool) :=
 
 Definition blist_eqb := list_eqb Bool.eqb.
 
+(* annotations read off the implementation's answers (facts about code and balances, not about
+   access status): delegate loaded? create succeeded? *)
+Definition ann_of (d : db) (codeof : Z -> Z) (o : hop) (ob : list Z) : ann :=
+  match o with
+  | HLoadDelegated a => mkAnn (if nth 2 ob (-1) =? -1 then None else db_delegate d (codeof a)) false
+  | HCreate _ _ _ _ => mkAnn None (nth 0 ob 1 =? 0)
+  | _ => mkAnn None false
+  end.
+Fixpoint anns (d : db) (codeof : Z -> Z) (h : list hop) (obs : list (list Z)) : list ann :=
+  match h, obs with o :: r, ob :: obr => ann_of d codeof o ob :: anns d codeof r obr | _, _ => [] end.
+
 Definition verdict (c : case) : Z :=
   let d := mk_db (c_accs c) (c_sto c) (c_del c) in
   if negb (c_completed c) then Corr.C06.verdict c else
@@ -32,7 +43,7 @@ Definition verdict (c : case) : Z :=
   let h := c_setup c ++ [HCheckpoint] ++ c_body c ++ [HRevert] in
   let n1 := length (c_setup c) in
   let obs := firstn n1 (c_obs c) ++ [[]] ++ skipn n1 (c_obs c) ++ [[]] in
-  let '(_, spec_ans) := spec_run d codeof (w0, []) h obs in
+  let '(_, spec_ans) := spec_run (w0, []) h (anns d codeof h obs) in
   let impl_ans := cold_trace h obs in
   let spec_ok := list_eqb blist_eqb spec_ans impl_ans in
   if spec_ok then Corr.C06.verdict c else 2.
